@@ -36,6 +36,9 @@ checks = {
  "C11": (EXPL, "4 C11", "stateful PBT calling a cfg-guarded engine audit (port of the OCaml Node/State invariants) after every single API action",
    "IncrState::verif_audit() (hook) walks every live node: symmetric edges with matching indices, heights above inputs and creating bind, unneeded nodes unlinked and unscheduled, recompute heap = needed-and-stale nodes once each at their height, adjust-heights heap empty, quiescence after stabilise, stats().necessary and handler counts. Called after each action of generated histories.",
    "trusted: the audit port in /repo/src/verif_audit.rs (add-only, cfg-guarded)"),
+ "C12": (EXPL, "4 C12", "stateful PBT with weak-reference and canary accounting: drawn drop orders of all handles and the state interleaved with stabilises, against a strong-reachability model",
+   "Every closure owns a clone of a canary Rc and every node is tracked by a WeakIncr; after each stabilise all nodes that the model's strong-reachability (handles, observers, closures, bind right-hand sides) cannot reach must have strong_count 0; after the drawn final drop order nothing may remain; no drop may panic (worker abort = violation) and the remaining graph's values must stay correct. Both build configurations.",
+   "reachability is over-approximated (sound); vars of vars and expert nodes are not in this generator"),
  "C13": ("fault_enumeration", "4 C13", "fault enumeration: a panic injected at every individual user-function invocation of generated programs, then observer reads / re-stabilise / drops checked",
    "Each generated program is re-executed once per user-function invocation it performs, with a panic injected there and caught by the caller; afterwards reads must fail (or, for a handler fault, equal the fully propagated model values), a further stabilise must refuse without invoking anything, and dropping everything must not panic or abort (worker processes detect aborts). Both build configurations.",
    "faults are injected only in functions the harness supplies (node functions, bind closures, boxed/fn cutoffs, handlers); bounded program sizes"),
@@ -57,6 +60,9 @@ checks = {
  "C18": (EXPL, "4 C18", "exhaustive enumeration of small map pairs + random larger pairs against the definition of the symmetric difference; instrumented incr_merge for merge order",
    "symmetric_fold on BTreeMap, Rc<BTreeMap> and OrdMap must visit exactly the differing keys once, ascending, with the right Left/Right/Unequal payloads, for ALL pairs over a small domain and random pairs over 40 keys; incr_merge's merge function must be called in strictly ascending key order for exactly the keys that differ in either input and are still present.",
    "MergeOnceWith is crate-private and reached only through incr_merge"),
+ "C20": (EXPL, "4 C20", "stateful PBT of memoised calls from top level and from (nested) bind closures with pointer-identity and call-counter oracles under a conservative reference-certainty model",
+   "While a reference to the node of a key certainly exists, a call must return the identical node without invoking the function; once certainly none exists and a stabilise ran, the next call must invoke it exactly once; nodes obtained inside a bind closure and observed from outside must stay valid and correct across bind re-runs and drops.",
+   "weak_memoize_fn is called at top level; uncertain reference states make no claim"),
  "C09": (EXPL, "4 C09", "stateful PBT with a per-subscription notification model (Initialised once, Changed iff changed, one Invalidated, nothing after the end)",
    "Every delivered update is logged with the value the observer returns at that moment and the values of all other observers; per-subscription sequences are compared with the model for each round.",
    "handler order across subscriptions unspecified: oracles are per subscription"),
